@@ -8,13 +8,16 @@ def sh(cmd, cwd=None, timeout=3600):
     return r.returncode, r.stdout
 
 def table():
-    rows = ["| seed | targets | what it needs to manifest (from the agent's notes) | reported by | silent |", "|---|---|---|---|---|"]
+    rows = ["| seed | targets | what it needs to manifest (from the agent's notes) | reported by | silent | before strengthening |", "|---|---|---|---|---|---|"]
     for d in sorted(glob.glob("/verif/seeded/s*")):
         m = json.load(open(os.path.join(d, "meta.json")))
         need = m.get("needs", "")
         caught = ", ".join("%s%s" % (c, "" if not r.get("nfi") else " (no-failing-input-found)") for c, r in m["checks"].items() if r["exit"] == 1)
         silent = ", ".join(c for c, r in m["checks"].items() if r["exit"] == 0)
-        rows.append("| %s | %s | %s | %s | %s |" % (os.path.basename(d), m["property"], need.replace("|", "/"), caught or "—", silent or "—"))
+        pre = ""
+        if "pre_boost_caught_by" in m:
+            pre = ("reported by " + ", ".join(m["pre_boost_caught_by"]) if m["pre_boost_caught_by"] else "MISSED by all") + (" → added: " + m["strengthened"] if m.get("strengthened") else "")
+        rows.append("| %s | %s | %s | %s | %s | %s |" % (os.path.basename(d), m["property"], need.replace("|", "/"), caught or "—", silent or "—", pre))
     return "\n".join(rows)
 
 def main():
